@@ -141,20 +141,14 @@ Definition issued_of_cbor (c : cbor) : option issued :=
 
 Definition msg (pre : String.string) (why : String.string) : cbor := CText (s9 pre ++ s9 why).
 
-Definition f3_text : String.string :=
-  "known:F3_digest_id_min:DigestId::new(i32::MIN) panics in a debug build and returns -2^31 in a release build".
-
 Definition api_c09 (cmd : bytes) (args : list cbor) : option cbor :=
   if bytes_eqb cmd (s9 "c09.digest_id_new") then
-    (* i32, release? -> [0, value] | [1] (panic) *)
+    (* i32, release? -> [0, value]  (the model's constructor cannot panic; an implementation panic is observed as [1]) *)
     match args with
     | [i; CBool release] =>
       match int_of_cbor i with
       | Some z => Some (if in_i32 z then
-                          match digest_id_new release z with
-                          | IdValue v => CArray [CUInt 0; int_cbor v]
-                          | IdPanic => CArray [CUInt 1]
-                          end
+                          CArray [CUInt 0; int_cbor (digest_id_new release z)]
                         else CArray [CUInt 9])
       | None => None
       end
@@ -170,21 +164,20 @@ Definition api_c09 (cmd : bytes) (args : list cbor) : option cbor :=
               | CArray [CUInt 0; v] =>
                 match int_of_cbor v with
                 | Some v' => if digest_id_in_range_b v' then ctext "ok"
-                             else if known_c09_f3_b z then ctext f3_text
                              else ctext "fail:digest id outside 0..2^31-1"
                 | None => ctext "fail:digest id is not an integer"
                 end
-              | _ => if known_c09_f3_b z then ctext f3_text else ctext "fail:digest id constructor panicked"
+              | _ => ctext "fail:digest id constructor panicked"
               end)
       | None => None
       end
     | _ => None
     end
   else if bytes_eqb cmd (s9 "c09.sweep_expect") then
-    (* what a sweep of all 2^32 inputs of a release build must find, by C09_digest_id_range and
-       C09_digest_id_range_refuted: [inputs, number outside 0..2^31-1, the inputs outside] *)
+    (* what a sweep of all 2^32 inputs of a release build must find, by C09_digest_id_range:
+       [inputs, number outside 0..2^31-1, the inputs outside] -- none *)
     match args with
-    | [] => Some (CArray [CUInt 4294967296; CUInt 1; CArray [int_cbor i32_min]])
+    | [] => Some (CArray [CUInt 4294967296; CUInt 0; CArray []])
     | _ => None
     end
   else if bytes_eqb cmd (s9 "c09.issue") then
@@ -230,8 +223,7 @@ Definition api_c09 (cmd : bytes) (args : list cbor) : option cbor :=
                 else match issued_of_cbor d with
                      | None => ctext "fail:observation is not a document"
                      | Some o =>
-                       if mentions_f3 o then ctext f3_text
-                       else match issued_check (fun _ _ => authentic) req o with
+                       match issued_check (fun _ _ => authentic) req o with
                             | Some why => msg "fail:" why
                             | None =>
                               if negb (randoms_distinct_b o) then ctext "fail:random values repeat within the document (not fresh)"
